@@ -1094,6 +1094,18 @@ class Unit:
             self._open_header = None
         return body
 
+    def macro(self, file, name):
+        """`macro_rules! name { .. }` copied verbatim (no rewrite): the code that uses it is expanded by rustc as in /repo"""
+        src = read_src(file)
+        code = code_mask(src)
+        m = next((m for m in re.finditer(r'macro_rules!\s+%s\s*\{' % re.escape(name), src) if code[m.start()]), None)
+        if not m:
+            raise Infra('macro_rules! %s not found in %s' % (name, file))
+        end = match_brace(src, code, m.end() - 1)
+        self.functions.append(dict(item='macro ' + name, file=file, lines=[src.count('\n', 0, m.start()) + 1, src.count('\n', 0, end) + 1],
+                                   sha256=hashlib.sha256(src[m.start():end].encode()).hexdigest()))
+        self._emit('#[allow(unused_macros)]\n' + src[m.start():end])
+
     def exec_const(self, file, name, ensures, props=None, indent='    '):
         """R13: `const NAME: T = EXPR;` (an initialiser that calls exec const fns) becomes
         `exec const NAME: T ensures .. { EXPR }`; the ensures clauses are obligations like any other."""
